@@ -117,7 +117,7 @@ def r_srcstore(ctx, prog, codecs):
     R = 'R-SRCSTORE'
     ctx.rule(R, 'every store into a symbol table in the program is one of: the received pointer itself (source ESIs), a private copy of '
              'a received repair symbol, a decoded symbol placed in the buffer chosen by the callback-or-allocate rule into an empty '
-             'slot, or NULL in release', floor=8)
+             'slot, or NULL in release', floor=1)
     scope_structs = set()
     n = 0
     for f in prog.all_functions:
@@ -176,7 +176,7 @@ def _codec_of_fn(f):
 
 def r_srcptr(ctx, prog, codecs):
     R = 'R-SRCPTR'
-    ctx.rule(R, 'get_source_symbols_tab copies exactly k pointers from the session table to the caller\'s array', floor=len(codecs))
+    ctx.rule(R, 'get_source_symbols_tab copies exactly k pointers from the session table to the caller\'s array', floor=1)
     for fam in RS_FAMILY + LB_FAMILY:
         if fam['codec'] not in codecs:
             continue
@@ -202,7 +202,7 @@ def r_cb(ctx, prog, codecs):
     R = 'R-CB'
     ctx.rule(R, 'every call of the decoded-source-symbol callback passes (context, symbol length, esi < k), is guarded by callback != '
              'NULL, its non-NULL result receives the decoded bytes and becomes the table entry for that ESI, and a NULL result falls '
-             'back to a library buffer (never an error)', floor=3)
+             'back to a library buffer (never an error)', floor=1)
     n = 0
     for f in prog.all_functions:
         codec = _codec_of_fn(f)
